@@ -28,5 +28,8 @@ theorem qf_clear_translated {N : Nat} (t : Quotient.St N) :
         (Quotient.clear t).n) := qf_clear_eq t
 theorem bloom_clear_translated (s : Bloom.St) : bloom_clear s.bits.toList = Flow.cont (Bloom.clear s).bits.toList :=
   bloom_clear_eq s
+theorem hll_is_empty_translated (s : Hll.St) : hll_is_empty s.regs.toList = Hll.isEmpty s := hll_is_empty_eq s
+theorem qf_is_empty_translated (n : Nat) : qf_is_empty n = (n == 0) := qf_is_empty_eq n
+theorem qf_len_translated (n : Nat) : qf_len n = n := qf_len_eq n
 
 end Pds.Tie.C19
